@@ -1,6 +1,7 @@
 package rules
 
 import (
+	"go/token"
 	"go/ast"
 	"go/types"
 	"sort"
@@ -280,5 +281,103 @@ func noPooledResult(r *core.Run, rule string, fns []*core.FuncInfo) {
 			}
 			return true
 		})
+	}
+}
+
+// noSingletonState: a method of a type of which the program keeps one shared instance (a package-level variable of
+// that type / pointer to it, handed to every user) does not write the instance's fields on request paths (plain
+// assignment, ++, or a sync/atomic store / add / swap on the field's address): what one stream / request leaves
+// there changes what the next one is answered. fns: the methods (and helpers) to examine.
+func noSingletonState(r *core.Run, rule, what string, fns []*core.FuncInfo) {
+	w := r.W
+	singleton := func(n *types.Named) string {
+		for _, p := range w.ByPath {
+			if !strings.HasPrefix(p.PkgPath, core.Module) || strings.Contains(p.PkgPath, "/mock") {
+				continue
+			}
+			sc := p.Types.Scope()
+			for _, name := range sc.Names() {
+				v, ok := sc.Lookup(name).(*types.Var)
+				if !ok {
+					continue
+				}
+				t := v.Type()
+				if pt, ok := t.(*types.Pointer); ok {
+					t = pt.Elem()
+				}
+				if t == types.Type(n) {
+					return p.Types.Name() + "." + v.Name()
+				}
+			}
+		}
+		return ""
+	}
+	for _, f := range dedupFns(fns) {
+		if f == nil || f.Decl.Body == nil || w.IsTestFile(f.Decl.Pos()) {
+			continue
+		}
+		rn := core.RecvNamed(f.Obj)
+		rv := recvVarOf(f)
+		if rn == nil || rv == nil {
+			continue
+		}
+		inst := singleton(rn)
+		if inst == "" {
+			continue
+		}
+		info := f.Pkg.TypesInfo
+		r.Fn(f)
+		r.Sites++
+		var bad []string
+		isRecvField := func(e ast.Expr) string {
+			sel, ok := ast.Unparen(e).(*ast.SelectorExpr)
+			if !ok || core.ObjOf(info, sel.X) != rv {
+				return ""
+			}
+			if v, ok := info.Uses[sel.Sel].(*types.Var); ok && v.IsField() {
+				return v.Name()
+			}
+			return ""
+		}
+		ast.Inspect(f.Decl.Body, func(n ast.Node) bool {
+			switch x := n.(type) {
+			case *ast.AssignStmt:
+				for _, l := range x.Lhs {
+					if fld := isRecvField(l); fld != "" {
+						bad = append(bad, fld+" (assigned at "+w.Pos(x.Pos())+")")
+					}
+				}
+			case *ast.IncDecStmt:
+				if fld := isRecvField(x.X); fld != "" {
+					bad = append(bad, fld+" (changed at "+w.Pos(x.Pos())+")")
+				}
+			case *ast.CallExpr:
+				callee := core.Callee(info, x)
+				if callee == nil || callee.Pkg() == nil {
+					return true
+				}
+				mut := inSet(callee.Name(), "Store", "Add", "Swap", "CompareAndSwap", "StoreUint32", "StoreUint64", "StoreInt32", "StoreInt64", "AddUint32", "AddUint64", "AddInt32", "AddInt64", "SwapUint32", "SwapInt32", "CompareAndSwapUint32", "CompareAndSwapInt32", "StorePointer", "Inc", "Dec", "Set")
+				if !mut || !(callee.Pkg().Path() == "sync/atomic" || strings.HasPrefix(callee.Pkg().Path(), "go.uber.org/atomic") || callee.Pkg().Path() == "sync") {
+					return true
+				}
+				// atomic.StoreX(&h.f, v)  /  h.f.Store(v)
+				for _, a := range x.Args {
+					if u, ok := ast.Unparen(a).(*ast.UnaryExpr); ok && u.Op == token.AND {
+						if fld := isRecvField(u.X); fld != "" {
+							bad = append(bad, fld+" ("+callee.Name()+" at "+w.Pos(x.Pos())+")")
+						}
+					}
+				}
+				if sel, ok := ast.Unparen(x.Fun).(*ast.SelectorExpr); ok {
+					if fld := isRecvField(sel.X); fld != "" {
+						bad = append(bad, fld+" ("+callee.Name()+" at "+w.Pos(x.Pos())+")")
+					}
+				}
+			}
+			return true
+		})
+		sort.Strings(bad)
+		r.Check(len(bad) == 0, rule, core.ShortKey(f.Obj)+" keeps no state in the shared instance "+inst, w.Pos(f.Decl.Pos()), what+" depends on its inputs only",
+			what+" writes fields of the one instance every user shares ("+inst+"): "+strings.Join(bad, "; ")+" — what one stream or request leaves there changes what another is answered (a memo keyed by too little)")
 	}
 }
